@@ -170,22 +170,28 @@ def extract_blocks(
     # If mixed element, each argument has no sub-elements
     parts = tuple(sorted(set(part for a in arguments if (part := a.part()) is not None)))
     if parts == ():
+        by_number = {a.number(): a for a in arguments}
+        ordered = [by_number[n] for n in sorted(by_number)]
+        num_rows = ordered[0].ufl_element().num_sub_elements
+        # A non-mixed trial function gives a single column
+        num_cols = max(ordered[1].ufl_element().num_sub_elements, 1) if arity == 2 else 0
+
+        def _block(pi, pj=None):
+            f = fs.split(form, pi, pj)
+            return None if f.empty() else f
+
         if i is None and j is None:
-            num_sub_elements = arguments[0].ufl_element().num_sub_elements
             # If form has no sub elements, return the form itself.
-            if num_sub_elements == 0:
+            if num_rows == 0:
                 return form
-            forms = []
-            for pi in range(num_sub_elements):
-                form_i: list[object | None] = []
-                for pj in range(num_sub_elements):
-                    f = fs.split(form, pi, pj)
-                    if f.empty():
-                        form_i.append(None)
-                    else:
-                        form_i.append(f)
-                forms.append(tuple(form_i))
-            return tuple(forms)  # type: ignore[return-value]
+            if arity == 1:
+                return tuple(_block(pi) for pi in range(num_rows))
+            return tuple(
+                tuple(_block(pi, pj) for pj in range(num_cols)) for pi in range(num_rows)
+            )
+        elif arity == 2 and j is None:
+            # The ith row
+            return tuple(_block(i, pj) for pj in range(num_cols))
         else:
             return fs.split(form, i, j)
 
